@@ -8,6 +8,7 @@ import sys
 sys.setrecursionlimit(10000)
 
 _GEN = re.compile(r'::<[^<>]*>')
+_IMPLFOR = re.compile(r'<impl (?:[\w:]+::)?(\w+)(?:<.*>)? for .*>::(\w+)$')
 _QSELF = re.compile(r'^<.* as ([^<>]*(?:<.*>)?)>::(\w+)$')
 
 
@@ -24,6 +25,9 @@ def norm(path):
 
 def short(path, n=2):
     p = norm(path)
+    mi = _IMPLFOR.search(p)
+    if mi:
+        return mi.group(1) + '::' + mi.group(2)
     if p.startswith('<'):
         m = _QSELF.match(p)
         if m:
@@ -728,11 +732,11 @@ def normalize_truth(e, truth):
             e = e[2]
             truth = not truth
             continue
-        if e[0] == 'call' and (e[1].endswith('PartialEq::ne') or e[1].endswith('::ne')) and len(e[2]) == 2:
+        if e[0] == 'call' and (short(e[1]) == 'PartialEq::ne' or e[1].endswith('::ne')) and len(e[2]) == 2:
             e = ('eq', e[2][0], e[2][1])
             truth = not truth
             continue
-        if e[0] == 'call' and (e[1].endswith('PartialEq::eq') or e[1].endswith('::eq')) and len(e[2]) == 2:
+        if e[0] == 'call' and (short(e[1]) == 'PartialEq::eq' or e[1].endswith('::eq')) and len(e[2]) == 2:
             e = ('eq', e[2][0], e[2][1])
             continue
         if e[0] == 'bin' and e[1] == 'Ne':
@@ -757,7 +761,7 @@ def normalize_truth(e, truth):
             e = ('cmp', op, a, b)
             break
         if e[0] == 'call' and len(e[2]) == 2:
-            m = re.search(r'PartialOrd::(lt|le|gt|ge)$', e[1])
+            m = re.search(r'PartialOrd::(lt|le|gt|ge)$', short(e[1]))
             if m:
                 e = ('bin', {'lt': 'Lt', 'le': 'Le', 'gt': 'Gt', 'ge': 'Ge'}[m.group(1)], e[2][0], e[2][1])
                 continue
